@@ -416,7 +416,7 @@ class ColumnMapper:
 
     @staticmethod
     def _value_handler(value_str, x):
-        if x == "n/a":
-            return "n/a"
+        if x == "n/a" or x == "":
+            return x
 
         return value_str.replace("#", str(x))
